@@ -144,14 +144,33 @@ func TestVerifC03Sched(t *testing.T) {
 		defer vhook.Uninstall()
 		lastPersisted := map[string]uint64{}
 		localDir := telemetry.Default.LocalDir()
+		// per thread: the scheduler step of its last operation on a counter state word
+		lastStateOp := map[int]int{}
+		c03StepHook = func(step int, th *vhook.Thread) {
+			env.stepNow = step
+			// th.Site is the operation the thread is parked at and performs in this step
+			if strings.HasPrefix(th.Site, "counter.go:") && (strings.Contains(th.Site, ":update:") || strings.Contains(th.Site, ":load:")) {
+				lastStateOp[th.ID] = step
+			}
+		}
+		defer func() { c03StepHook = nil }()
 		knownHit := false
 		check := func(step int, th *vhook.Thread) {
 			if th.Panic != nil {
 				if th.IsFault && env.inClosed(th.FaultAddr) {
-					sig := "use-after-unmap"
-					if vstats.Known(sig) {
-						knownHit = true
-						return
+					// The listed finding is: the mapping is closed AFTER the thread last looked at the
+					// counter's state word (it holds the reader count or the lock and cannot notice).
+					// A thread that uses a pointer into a mapping closed BEFORE its last state update
+					// had the chance to notice the invalidation: that is a different defect.
+					if closed := env.closedAt(th.FaultAddr); closed > lastStateOp[th.ID] {
+						sig := "use-after-unmap"
+						if vstats.Known(sig) {
+							knownHit = true
+							return
+						}
+					} else {
+						t.Fatalf("memory fault: thread %s accessed %#x in a mapping that had been closed (step %d) before the thread's last update of the counter state (step %d): it kept using a stale pointer after an invalidation it could see\n%s",
+							th.Name, th.FaultAddr, closed, lastStateOp[th.ID], th.Stack)
 					}
 					t.Fatalf("memory fault: thread %s accessed %#x inside a mapping that was already unmapped (use after unmap)\n%s", th.Name, th.FaultAddr, th.Stack)
 				}
